@@ -37,7 +37,7 @@ type orderGen struct {
 	info     *OrderInfo
 	vars     map[string][]string // type string -> variable names in scope (body level)
 	counter  int
-	noStr    int // >0: inside a string template hole: no string literals
+	noStr    int   // >0: inside a string template hole: no string literals
 	anyHint  *Type // dynamic type AnyStruct values should mostly have (cast targets)
 	maxDepth int
 }
@@ -173,7 +173,7 @@ func (g *orderGen) expr(t *Type, d int) Expr {
 	case "Int":
 		switch g.draw(14, "int-form") {
 		case 0, 1:
-			ops := []string{"+", "-", "*", "/", "%"}
+			ops := []string{"+", "-", "*", "/", "%", "&", "|", "^"}
 			op := ops[g.draw(len(ops), "op")]
 			g.feat("binary " + op)
 			return Binary{Op: op, L: g.expr(Int, d), R: g.expr(Int, d)}
@@ -476,7 +476,7 @@ func (g *orderGen) intTarget(d int) Expr {
 }
 
 func (g *orderGen) stmt(d int, nest int) []Stmt {
-	n := 10
+	n := 11
 	if nest >= 2 {
 		n = 6 // no compound statements
 	}
@@ -521,6 +521,15 @@ func (g *orderGen) stmt(d int, nest int) []Stmt {
 			R: g.expr(Bool, d-1)}
 		body := append([]Stmt{Assign{Target: V(c), Value: Binary{Op: "+", L: V(c), R: I(1)}}}, g.block(d-2, nest+1)...)
 		return []Stmt{Let{Name: c, IsVar: true, Init: I(0)}, While{Cond: cond, Body: body}}
+	case 9:
+		g.feat("if-let")
+		name := g.fresh("w")
+		s := IfLet{Name: name, Init: g.expr(tOInt, d)}
+		s.Then = append([]Stmt{Log{E: V(name)}}, g.block(d-1, nest+1)...)
+		if g.draw(2, "else") == 0 {
+			s.Else = g.block(d-1, nest+1)
+		}
+		return []Stmt{s}
 	default:
 		g.feat("early-return")
 		return []Stmt{If{Cond: g.expr(Bool, d-1), Then: []Stmt{Return{E: ArrLit{T: Arr(Any), Elems: []Expr{exact(g.expr(Int, d-1), Int)}}}}}}
